@@ -1,12 +1,50 @@
-//! Witness search for C11: upload files in one session against a local store, finalize, then re-upload the same bytes in a second
-//! session sharing the local shard cache; every chunk was stored in a new xorb by the first session, so the second session must
-//! transfer no new chunk bytes - whether the data went into a mid-file xorb or into the session's final aggregated xorb.
-//! Prints `WITNESS ...` and exits 1 on the first violation.
+//! Witness search for C11 (data uploaded once is deduplicated by every later session): every chunk that a finalized session stored
+//! in a new xorb is recorded in that session's shards, so a later session / manager sharing the local shard cache finds it.
+//! Prints `WITNESS ...` and exits 1 on the first violation, `no violation found` otherwise; never proves anything.
+//!
+//! Scenarios:
+//!  R  (the original search) upload files in one FileUploadSession against a local store, finalize, re-upload the same bytes in a
+//!     second session sharing the local shard cache: the second session must transfer no new chunk bytes - one small file
+//!     (final aggregated xorb), three small files, a sub-chunk file, a 3 MB file cut into several mid-file xorbs (xorb limit
+//!     lowered to 1 MB), a 2.5 MB file followed by two small ones.
+//!  P  "another process writes into the shared cache between two sessions", session level: P1 runs a session on unrelated data
+//!     (which opens the shard cache directory in this process); P2 - stood in for by the same cache directory spelled
+//!     `.../shard-session/../shard-cache`, which gets its own ShardFileManager instance exactly like another process - uploads
+//!     file A as new data and finalizes (its session shard is exported into the shared cache directory); P1 starts a NEW session
+//!     and re-uploads A: no new bytes.  Control order (P2 first) as well.
+//!  M  the same at the manager level: `ShardFileManager::new_in_cache_directory(cache)` (session 1 of P1); a shard recording xorb X
+//!     is exported into `cache` by someone else (session-directory manager: add_cas_block, flush, export_with_expiration);
+//!     `new_in_cache_directory(cache)` again (what the next session of P1 does): every chunk of X must be found.
+//!  B  a session shard with MORE than 65,536 CAS-section entries (80 xorbs x 1000 chunks = 80,080 entries), built through the real
+//!     `ShardFileManager` (add_cas_block x 80, flush), exported to the cache directory with an expiry as
+//!     `upload_and_register_session_shards` does: the flushing manager itself and a later manager over the cache directory must
+//!     find every xorb - runs of 5 chunks starting at chunk 0, 417 and 995 of each xorb must come back as (5, that xorb, that range).
+//!  G  the same through FileUploadSession (child process, because the chunk-size constants are read once per process:
+//!     HF_XET_TARGET_CHUNK_SIZE=256, HF_XET_MINIMUM_CHUNK_DIVISOR=2, honoured in debug builds): a 22 MB file (about 90,000 chunks)
+//!     is uploaded as new data, finalized, and uploaded again in a second session over the same local directories: the second
+//!     session must report 0 new bytes / 0 new chunks and deduped_bytes == file size.
+//! `VERIF_C11_ONLY=R,P,...` selects scenarios.  Exit 2 = the harness itself failed.
+use std::path::{Path, PathBuf};
 use std::sync::Arc;
+use std::time::Duration;
 
 use data::configurations::TranslatorConfig;
 use data::FileUploadSession;
+use deduplication::DeduplicationMetrics;
+use mdb_shard::cas_structs::{CASChunkSequenceEntry, CASChunkSequenceHeader, MDBCASInfo};
+use mdb_shard::{MDBShardFile, ShardFileManager};
+use merklehash::MerkleHash;
 use xet_threadpool::ThreadPool;
+
+fn infra(msg: String) -> ! {
+    eprintln!("harness failure: {msg}");
+    println!("harness failure: {msg}");
+    std::process::exit(2)
+}
+fn witness(msg: String) -> ! {
+    println!("WITNESS {}", msg.replace('\n', " "));
+    std::process::exit(1)
+}
 
 fn data_of(seed: u64, len: usize) -> Vec<u8> {
     // xorshift: incompressible, no repeated chunk
@@ -14,26 +52,25 @@ fn data_of(seed: u64, len: usize) -> Vec<u8> {
     (0..len).map(|_| { x ^= x << 13; x ^= x >> 7; x ^= x << 17; (x >> 24) as u8 }).collect()
 }
 
-async fn upload(cfg: Arc<TranslatorConfig>, tp: Arc<ThreadPool>, files: &[Vec<u8>]) -> (usize, usize) {
+async fn upload_metrics(cfg: Arc<TranslatorConfig>, tp: Arc<ThreadPool>, files: &[Vec<u8>]) -> DeduplicationMetrics {
     let session = FileUploadSession::new(cfg, tp, None).await.unwrap();
-    let mut new_bytes = 0;
-    let mut total = 0;
+    let mut all = DeduplicationMetrics::default();
     for (i, f) in files.iter().enumerate() {
         let mut cleaner = session.start_clean(format!("file{i}"));
         cleaner.add_data(f).await.unwrap();
         let (_p, m) = cleaner.finish().await.unwrap();
-        new_bytes += m.new_bytes;
-        total += m.total_bytes;
+        all.merge_in(&m);
     }
     session.finalize().await.unwrap();
-    (new_bytes, total)
+    all
+}
+async fn upload(cfg: Arc<TranslatorConfig>, tp: Arc<ThreadPool>, files: &[Vec<u8>]) -> (usize, usize) {
+    let m = upload_metrics(cfg, tp, files).await;
+    (m.new_bytes, m.total_bytes)
 }
 
-fn main() {
-    // a small xorb limit (configurable constant, read from the environment at first use) so that a 3 MB file is cut into several
-    // mid-file xorbs without needing hundreds of megabytes
-    unsafe { std::env::set_var("HF_XET_MAX_XORB_BYTES", "1000000"); }
-    let tp = Arc::new(ThreadPool::new().expect("runtime"));
+// ---------------------------------------------------------------- R
+fn scenario_r(tp: &Arc<ThreadPool>) {
     let cases: Vec<(&str, Vec<Vec<u8>>)> = vec![
         ("one small file (goes into the session's final aggregated xorb)", vec![data_of(1, 300_000)]),
         ("three small files merged into one aggregated xorb", vec![data_of(2, 200_000), data_of(3, 150_000), data_of(4, 90_000)]),
@@ -55,13 +92,303 @@ fn main() {
             .unwrap();
         let ((n1, t1), (n2, t2)) = r;
         if n1 != t1 || t2 != t1 {
-            println!("WITNESS {name}: unexpected baseline metrics first session new={n1} total={t1}, second total={t2}");
-            std::process::exit(1);
+            witness(format!("{name}: unexpected baseline metrics first session new={n1} total={t1}, second total={t2}"));
         }
         if n2 != 0 {
-            println!("WITNESS {name}: the first session stored {n1} new bytes and finalized; re-uploading the same bytes in a second session sharing the local shard cache transferred {n2} new bytes again (expected 0)");
-            std::process::exit(1);
+            witness(format!("{name}: the first session stored {n1} new bytes and finalized; re-uploading the same bytes in a second session sharing the local shard cache transferred {n2} new bytes again (expected 0)"));
         }
+    }
+}
+
+// ---------------------------------------------------------------- P
+fn config_p1(cas_dir: &Path) -> Arc<TranslatorConfig> {
+    TranslatorConfig::local_config(cas_dir).unwrap()
+}
+/// same directories on disk, but the shard cache directory is spelled differently, so this process treats it like a separate
+/// process would (own ShardFileManager instance; the process-global table is keyed by the un-normalised absolute path)
+fn config_p2(cas_dir: &Path) -> Arc<TranslatorConfig> {
+    let mut config = TranslatorConfig::local_config(cas_dir).unwrap();
+    let alias: PathBuf = cas_dir.join("xet").join("shard-session").join("..").join("shard-cache");
+    std::fs::create_dir_all(cas_dir.join("xet").join("shard-session")).unwrap();
+    std::fs::create_dir_all(cas_dir.join("xet").join("shard-cache")).unwrap();
+    let same = std::fs::canonicalize(&alias).ok() == std::fs::canonicalize(&config.shard_config.cache_directory).ok();
+    if !same {
+        infra("P: the alias path does not name the shard cache directory".into());
+    }
+    match Arc::get_mut(&mut config) {
+        Some(c) => c.shard_config.cache_directory = alias,
+        None => infra("P: config not unique".into()),
+    }
+    config
+}
+fn scenario_p(tp: &Arc<ThreadPool>) {
+    const SIZE: usize = 1024 * 1024;
+    for control in [false, true] {
+        let dir = tempfile::tempdir().unwrap();
+        let cas = dir.path().join("cas");
+        let tp2 = tp.clone();
+        let r = tp
+            .external_run_async_task(async move {
+                let warmup = vec![data_of(101, SIZE)];
+                let a = vec![data_of(102, SIZE)];
+                let mut log = Vec::new();
+                if !control {
+                    log.push(("P1 session on unrelated data", upload(config_p1(&cas), tp2.clone(), &warmup).await));
+                }
+                log.push(("P2 uploads A as new data", upload(config_p2(&cas), tp2.clone(), &a).await));
+                if !control {
+                    log.push(("P2 re-uploads A", upload(config_p2(&cas), tp2.clone(), &a).await));
+                }
+                log.push(("P1 (new session) re-uploads A", upload(config_p1(&cas), tp2.clone(), &a).await));
+                log.push(("P1 (another new session) re-uploads A", upload(config_p1(&cas), tp2.clone(), &a).await));
+                let n_cache = std::fs::read_dir(cas.join("xet").join("shard-cache")).map(|d| d.count()).unwrap_or(0);
+                (log, n_cache)
+            })
+            .unwrap();
+        let (log, n_cache) = r;
+        let history = log.iter().map(|(s, (n, t))| format!("{s}: new={n} total={t}")).collect::<Vec<_>>().join("; ");
+        let first_p2 = log.iter().find(|(s, _)| s.starts_with("P2 uploads")).map(|x| x.1).unwrap_or((0, 0));
+        if first_p2 != (SIZE, SIZE) {
+            infra(format!("P: unexpected baseline: {history}"));
+        }
+        for (step, (n, t)) in &log {
+            if step.contains("re-uploads A") && (*n != 0 || *t != SIZE) {
+                witness(format!(
+                    "P ({}): two users of one on-disk shard cache directory ({n_cache} shard files in it); P2 is the same directory under another path spelling = another ShardFileManager instance, as in another process. History: {history}. Step '{step}' stored {n} new bytes although A's xorbs are recorded in a shard of the shared cache directory (expected 0)",
+                    if control { "control order" } else { "P1 opened the cache before P2 uploaded" }
+                ));
+            }
+        }
+    }
+}
+
+// ---------------------------------------------------------------- M and B: shard level
+fn hash_of(a: u64, b: u64) -> MerkleHash {
+    let mut z = a.wrapping_mul(0x9E3779B97F4A7C15) ^ b.wrapping_mul(0xD1B54A32D192ED03);
+    let mut out = [0u8; 32];
+    for j in 0..4 {
+        z = z.wrapping_add(0x9E3779B97F4A7C15);
+        let mut x = z;
+        x = (x ^ (x >> 30)).wrapping_mul(0xBF58476D1CE4E5B9);
+        x = (x ^ (x >> 27)).wrapping_mul(0x94D049BB133111EB);
+        x ^= x >> 31;
+        out[j * 8..j * 8 + 8].copy_from_slice(&x.to_le_bytes());
+    }
+    MerkleHash::from_slice(&out).unwrap()
+}
+fn make_xorb(tag: u64, xorb_idx: u64, n_chunks: u64) -> MDBCASInfo {
+    let mut chunks = Vec::with_capacity(n_chunks as usize);
+    let mut pos = 0u32;
+    for c in 0..n_chunks {
+        let len = 60_000 + (c as u32 % 7) * 1000;
+        chunks.push(CASChunkSequenceEntry::new(hash_of(tag, 1_000_000 * (xorb_idx + 1) + c), len, pos));
+        pos += len;
+    }
+    MDBCASInfo { metadata: CASChunkSequenceHeader::new(hash_of(tag ^ 0x77, xorb_idx), n_chunks as u32, pos), chunks }
+}
+/// every xorb must be found: runs of 5 chunks from the given starts come back as (5, that xorb, that range)
+async fn missing_xorbs(mgr: &ShardFileManager, xorbs: &[MDBCASInfo], starts: &[usize]) -> Vec<String> {
+    let mut bad = Vec::new();
+    for (xi, x) in xorbs.iter().enumerate() {
+        for &start in starts {
+            if start + 5 > x.chunks.len() {
+                continue;
+            }
+            let q: Vec<_> = x.chunks[start..start + 5].iter().map(|c| c.chunk_hash).collect();
+            match mgr.chunk_hash_dedup_query(&q).await {
+                Ok(Some((5, e))) if e.cas_hash == x.metadata.cas_hash && (e.chunk_index_start, e.chunk_index_end) == (start as u32, start as u32 + 5) => {},
+                Ok(None) => {
+                    bad.push(format!("xorb #{xi} (chunks {start}..{}): not found", start + 5));
+                    break;
+                },
+                Ok(Some((n, e))) => {
+                    bad.push(format!("xorb #{xi} (chunks {start}..{}): answered ({n}, xorb {}, [{},{}))", start + 5, e.cas_hash.hex(), e.chunk_index_start, e.chunk_index_end));
+                    break;
+                },
+                Err(e) => {
+                    bad.push(format!("xorb #{xi}: query failed: {e:?}"));
+                    break;
+                },
+            }
+        }
+    }
+    bad
+}
+fn scenario_m(tp: &Arc<ThreadPool>) {
+    let cache = tempfile::tempdir().unwrap();
+    let other = tempfile::tempdir().unwrap();
+    let (cache_p, other_p) = (cache.path().to_path_buf(), other.path().to_path_buf());
+    let r = tp
+        .external_run_async_task(async move {
+            let x0 = vec![make_xorb(31, 0, 20)];
+            let x1 = vec![make_xorb(32, 0, 20), make_xorb(32, 1, 7)];
+            // session 1 of P1 opens the cache and records X0 there through its own session
+            let mgr1 = ShardFileManager::new_in_cache_directory(&cache_p).await.unwrap();
+            let export = |dir: PathBuf, xs: Vec<MDBCASInfo>, cache: PathBuf| async move {
+                let s = ShardFileManager::new_in_session_directory(&dir).await.unwrap();
+                for x in xs {
+                    s.add_cas_block(x).await.unwrap();
+                }
+                let p = s.flush().await.unwrap().expect("a session shard is written");
+                MDBShardFile::load_from_file(&p).unwrap().export_with_expiration(&cache, Duration::from_secs(3600)).unwrap()
+            };
+            let own = export(other_p.join("p1"), x0.clone(), cache_p.clone()).await;
+            mgr1.register_shards(&[own]).await.unwrap();
+            let before = missing_xorbs(&mgr1, &x0, &[0, 9]).await;
+            // someone else exports a shard into the shared cache directory
+            export(other_p.join("p2"), x1.clone(), cache_p.clone()).await;
+            // the next session of P1 asks for the manager of the cache directory again
+            let mgr2 = ShardFileManager::new_in_cache_directory(&cache_p).await.unwrap();
+            let mut after = missing_xorbs(&mgr2, &x1, &[0, 2]).await;
+            after.extend(missing_xorbs(&mgr2, &x0, &[0, 9]).await);
+            (before, after)
+        })
+        .unwrap();
+    if !r.0.is_empty() {
+        infra(format!("M: baseline broken: {:?}", r.0));
+    }
+    if !r.1.is_empty() {
+        witness(format!(
+            "M: ShardFileManager::new_in_cache_directory(cache) (session 1 of a long-lived process); then a shard recording xorbs X1 (20 and 7 chunks) is exported into the same cache directory by another manager (new_in_session_directory elsewhere, add_cas_block, flush, export_with_expiration(cache, 1 h)); then new_in_cache_directory(cache) again, as the next session does: {}",
+            r.1.join("; ")
+        ));
+    }
+}
+fn scenario_b(tp: &Arc<ThreadPool>) {
+    const N_XORBS: u64 = 80;
+    const CHUNKS: u64 = 1000;
+    let session = tempfile::tempdir().unwrap();
+    let cache = tempfile::tempdir().unwrap();
+    let (session_p, cache_p) = (session.path().to_path_buf(), cache.path().to_path_buf());
+    let r = tp
+        .external_run_async_task(async move {
+            let xorbs: Vec<MDBCASInfo> = (0..N_XORBS).map(|i| make_xorb(41, i, CHUNKS)).collect();
+            let smgr = ShardFileManager::new_in_session_directory(&session_p).await.unwrap();
+            for x in &xorbs {
+                smgr.add_cas_block(x.clone()).await.unwrap();
+            }
+            let in_memory = missing_xorbs(&smgr, &xorbs, &[0]).await;
+            let p = smgr.flush().await.unwrap().expect("a session shard is written");
+            let sf = MDBShardFile::load_from_file(&p).unwrap();
+            let entries = sf.shard.total_num_chunks() as u64 + sf.shard.num_cas_entries() as u64;
+            let same_session = missing_xorbs(&smgr, &xorbs, &[0, 417, 995]).await;
+            sf.export_with_expiration(&cache_p, Duration::from_secs(3600)).unwrap();
+            let cmgr = ShardFileManager::new_in_cache_directory(&cache_p).await.unwrap();
+            let later = missing_xorbs(&cmgr, &xorbs, &[0, 417, 995]).await;
+            (entries, in_memory, same_session, later)
+        })
+        .unwrap();
+    let (entries, in_memory, same_session, later) = r;
+    if entries <= 65_536 || !in_memory.is_empty() {
+        infra(format!("B: setup: {entries} CAS-section entries; in-memory misses {in_memory:?}"));
+    }
+    let head = format!(
+        "B: a session manager (new_in_session_directory) records {N_XORBS} xorbs x {CHUNKS} chunks (add_cas_block) and flushes them into ONE session shard with {entries} CAS-section entries (> 65,536)"
+    );
+    if !same_session.is_empty() {
+        witness(format!("{head}; the same manager afterwards does not find {} of the {N_XORBS} recorded xorbs: {}", same_session.len(), same_session.iter().take(6).cloned().collect::<Vec<_>>().join("; ")));
+    }
+    if !later.is_empty() {
+        witness(format!(
+            "{head}; the shard is exported to the cache directory (export_with_expiration, 1 h) and a later manager (new_in_cache_directory) does not find {} of the {N_XORBS} recorded xorbs: {}",
+            later.len(),
+            later.iter().take(6).cloned().collect::<Vec<_>>().join("; ")
+        ));
+    }
+}
+
+// ---------------------------------------------------------------- G: child process with tiny chunks
+const BIG_FILE: usize = 22 * 1024 * 1024;
+fn child_big(tp: &Arc<ThreadPool>) {
+    if *deduplication::constants::TARGET_CHUNK_SIZE != 256 || *deduplication::constants::MINIMUM_CHUNK_DIVISOR != 2 {
+        infra("G child: the chunk-size overrides were not picked up (not a debug build?)".into());
+    }
+    let dir = tempfile::tempdir().unwrap();
+    let path = dir.path().to_path_buf();
+    let tp2 = tp.clone();
+    let (m1, m2) = tp
+        .external_run_async_task(async move {
+            let files = vec![data_of(11, BIG_FILE)];
+            let m1 = upload_metrics(TranslatorConfig::local_config(&path).unwrap(), tp2.clone(), &files).await;
+            let m2 = upload_metrics(TranslatorConfig::local_config(&path).unwrap(), tp2.clone(), &files).await;
+            (m1, m2)
+        })
+        .unwrap();
+    if m1.total_bytes != BIG_FILE || m1.new_bytes != BIG_FILE || m1.total_chunks <= 70_000 {
+        infra(format!("G child: unexpected first session: {m1:?}"));
+    }
+    if m2.total_bytes != BIG_FILE || m2.new_bytes != 0 || m2.new_chunks != 0 || m2.deduped_bytes != BIG_FILE {
+        witness(format!(
+            "G: (chunk size lowered to 128..512 bytes) a {BIG_FILE}-byte file of {} chunks is uploaded as new data in one FileUploadSession and finalized (its session shard has more than 65,536 CAS-section entries); a second session over the same local directories re-uploads the unchanged file and stores {} new bytes in {} new chunks (deduped {} of {} chunks), expected 0",
+            m1.total_chunks, m2.new_bytes, m2.new_chunks, m2.deduped_chunks, m2.total_chunks
+        ));
+    }
+    println!("no violation found");
+}
+fn scenario_g() {
+    let exe = std::env::current_exe().unwrap_or_else(|e| infra(format!("current_exe: {e}")));
+    let out = std::process::Command::new(exe)
+        .env("C11_CHILD", "big")
+        .env("HF_XET_TARGET_CHUNK_SIZE", "256")
+        .env("HF_XET_MINIMUM_CHUNK_DIVISOR", "2")
+        .env_remove("HF_XET_MAX_XORB_BYTES")
+        .output()
+        .unwrap_or_else(|e| infra(format!("spawning the child failed: {e}")));
+    let stdout = String::from_utf8_lossy(&out.stdout);
+    match out.status.code() {
+        Some(0) => {},
+        Some(1) => {
+            let line = stdout.lines().find(|l| l.starts_with("WITNESS ")).unwrap_or("WITNESS G: the child reported a violation");
+            println!("{line}");
+            std::process::exit(1);
+        },
+        other => {
+            let err = String::from_utf8_lossy(&out.stderr);
+            let tail: String = err.lines().rev().take(8).collect::<Vec<_>>().into_iter().rev().collect::<Vec<_>>().join(" | ");
+            // a panic of the session code on this valid input is a finding as well
+            if err.contains("panicked at") {
+                witness(format!("G: the child process running two upload sessions of a 22 MB file with 256-byte chunks died (status {other:?}): {tail}"));
+            }
+            infra(format!("G child ended with status {other:?}: {} {tail}", stdout.trim()));
+        },
+    }
+}
+
+fn main() {
+    let tp = Arc::new(ThreadPool::new().expect("runtime"));
+    if std::env::var("C11_CHILD").as_deref() == Ok("big") {
+        child_big(&tp);
+        return;
+    }
+    // a small xorb limit (configurable constant, read from the environment at first use) so that a 3 MB file is cut into several
+    // mid-file xorbs without needing hundreds of megabytes
+    unsafe { std::env::set_var("HF_XET_MAX_XORB_BYTES", "1000000"); }
+    let only = std::env::var("VERIF_C11_ONLY").unwrap_or_default();
+    let on = |name: &str| only.is_empty() || only.split(',').any(|s| s.trim() == name);
+    let t = std::time::Instant::now();
+    // G runs in a child process; start it first so that it overlaps with the rest
+    let g = if on("G") { Some(std::thread::spawn(scenario_g)) } else { None };
+    if on("R") {
+        scenario_r(&tp);
+        eprintln!("R done at {:?}", t.elapsed());
+    }
+    if on("P") {
+        scenario_p(&tp);
+        eprintln!("P done at {:?}", t.elapsed());
+    }
+    if on("M") {
+        scenario_m(&tp);
+        eprintln!("M done at {:?}", t.elapsed());
+    }
+    if on("B") {
+        scenario_b(&tp);
+        eprintln!("B done at {:?}", t.elapsed());
+    }
+    if let Some(g) = g {
+        if g.join().is_err() {
+            infra("the thread waiting for the G child panicked".into());
+        }
+        eprintln!("G done at {:?}", t.elapsed());
     }
     println!("no violation found");
 }
